@@ -151,6 +151,8 @@ func runC06(ctx *Ctx) {
 	l.Merge()
 }
 
+var c06held held // the protected message returned by the previous send, looked at again after the next one
+
 func c06history(r *report.Report, l *report.Local, msgs [][]byte, ops []c06op, alg [2]uint8, kint, kenc [16]byte, start uint32, seq []int) {
 	ue := tglib.NewRanUeContext("imsi-001010000000001", 1, alg[1], alg[0])
 	ue.KnasInt, ue.KnasEnc = kint, kenc
@@ -183,6 +185,7 @@ func c06history(r *report.Report, l *report.Local, msgs [][]byte, ops []c06op, a
 			r.Violate("protect/error", cs, fmt.Sprint(perr, err), seq)
 			break
 		}
+		c06held.next(r, "protect/result-changed-by-a-later-send", out, cs)
 		got, h, sqn, uerr := refnas.Unprotect(out, sc, expect, refnas.DirUplink)
 		if uerr != nil {
 			key := "protect/receiver-rejects"
